@@ -146,7 +146,9 @@ impl PatchIndexHeader {
         pos += 4;
 
         // Read block descriptors
-        let mut blocks = Vec::with_capacity(block_count as usize);
+        // Each descriptor takes 8 bytes of input: reserve for what the data can hold
+        let mut blocks =
+            Vec::with_capacity((block_count as usize).min(data.len().saturating_sub(pos) / 8));
         for _ in 0..block_count {
             if pos + 8 > data.len() {
                 return Err(PatchIndexError::TruncatedHeader {
